@@ -448,10 +448,12 @@ func (env *ExecEnv) Eval(expr string) (n int, err error) {
 	defer func() {
 		if e := recover(); e != nil {
 			l.Error(e.(error).Error())
+			<-l.done
 			err = l.err
 		}
 	}()
 
 	yyParse(l)
+	<-l.done
 	return l.n, l.err
 }
